@@ -16,6 +16,7 @@ import Wz.Gen.CallEngine
 import Wz.Proofs.C06_CallEngine
 import Wz.Proofs.C06_Calls
 import Wz.Gen.Cleanup
+import Wz.Gen.Shapes
 
 namespace Wz.C06
 open Wz.Gen.ExitCodes Wz.Model.CallEngine Wz.Model.Calls
@@ -382,5 +383,13 @@ theorem deferred_cleanup_runs_on_every_outcome :
 `CloseModuleOnCanceledOrTimeout` is deferred immediately after it is obtained. -/
 theorem context_watcher_stopped_on_every_outcome :
     Wz.Gen.Cleanup.watchers = [("interpreter.go", "call", true), ("call_engine.go", "callWithStack", true)] := by decide
+
+
+/-- **Regenerated obligation** (wasm/store_module_list.go): `deleteModule` moves the head of the module list only
+when the deleted instance IS the head.  An instance that was never registered (start function exited, duplicate
+name) also passes through `deleteModule`; with the textbook unlinking (`prev == nil` ⇒ head := next) it would
+empty the list, and `Runtime.Close` would then close nothing (a seeded change did that). -/
+theorem delete_moves_head_only_for_the_head :
+    Wz.Gen.Shapes.get "c06.delete_head" = some "s.moduleList == m" := by decide
 
 end Wz.C06
